@@ -46,6 +46,7 @@ func VerifC17Expiry() {
 	saved := vNames
 	vNames = vEventNames
 	defer func() { vNames = saved }()
+	eventsTTL = 1 // seconds; natively AdvanceClock really waits when the replayed path needs the TTL to elapse
 	w := vNewWorld(zzverif.Param("keys", 3))
 	w.s.TTLSupported = false
 	w.history()
